@@ -194,4 +194,7 @@ pub fn run(ctx: &mut Ctx) {
             }
         }
     });
+
+    // hidden per-thread state: two-step histories from the initial state
+    crate::history::two_step_histories(ctx, "C11", crate::history::Family::Round);
 }
